@@ -29,16 +29,17 @@ type Config struct {
 
 // Op is one Write call.
 type Op struct {
-	Track  int    `json:"t"`
-	TS     int64  `json:"ts"`           // DTS of the first unit of the write, in the track clock
-	NTP    int64  `json:"ntp"`          // wall clock passed to Write, unix nanoseconds
-	Kind   string `json:"k,omitempty"`  // video: ra | inter | params | sei
-	InBand int    `json:"ib,omitempty"` // video: 1+index of the parameter set carried in band (0 = none)
-	Tmpl   int    `json:"tm,omitempty"` // h265 timing templates (see BuildVideo)
-	Size   int    `json:"sz,omitempty"` // marker size per unit
-	N      int    `json:"n,omitempty"`  // audio: units in this write (default 1)
-	OpusC  int    `json:"oc,omitempty"` // opus TOC config
-	OpusF  int    `json:"of,omitempty"` // opus frames per packet (default 1)
+	Track   int    `json:"t"`
+	TS      int64  `json:"ts"`           // DTS of the first unit of the write, in the track clock
+	NTP     int64  `json:"ntp"`          // wall clock passed to Write, unix nanoseconds
+	Kind    string `json:"k,omitempty"`  // video: ra | inter | params | sei
+	InBand  int    `json:"ib,omitempty"` // video: 1+index of the parameter set carried in band (0 = none)
+	Tmpl    int    `json:"tm,omitempty"` // h265 timing templates (see BuildVideo)
+	Size    int    `json:"sz,omitempty"` // marker size per unit
+	N       int    `json:"n,omitempty"`  // audio: units in this write (default 1)
+	OpusC   int    `json:"oc,omitempty"` // opus TOC config
+	OpusF   int    `json:"of,omitempty"` // opus frames per packet (default 1)
+	OpusMix bool   `json:"om,omitempty"` // packets of one write use different TOC configs
 }
 
 // Script is a muxer configuration plus a write sequence.
@@ -121,13 +122,20 @@ func ArgsOf(cfg Config, i int, op Op) WriteArgs {
 			if f < 1 {
 				f = 1
 			}
-			a.Units = append(a.Units, OpusPacket(op.OpusC, f, Marker(i, k, size)))
+			c := op.OpusC
+			if op.OpusMix {
+				c = OpusMixConfig(op.OpusC, k)
+			}
+			a.Units = append(a.Units, OpusPacket(c, f, Marker(i, k, size)))
 		} else {
 			a.Units = append(a.Units, Marker(i, k, size))
 		}
 	}
 	return a
 }
+
+// OpusMixConfig is the TOC config of packet k of a mixed write.
+func OpusMixConfig(base, k int) int { return (base + 5*k) % 32 }
 
 // ---- model -----------------------------------------------------------------------------------
 
